@@ -130,23 +130,26 @@ impl DmData {
 
     /// # Safety
     pub unsafe fn free(&self) {
+        // Absent levels are null pointers, which must not be turned into a Box
+        unsafe fn free_block<T>(ptr: *const T) {
+            if !ptr.is_null() {
+                drop(unsafe { Box::from_raw(ptr as *mut T) });
+            }
+        }
+
         unsafe {
-            drop(Box::from_raw(self.level1 as *mut ExtMetadataBlockLevel1));
+            free_block(self.level1);
             self.level2.free();
-            drop(Box::from_raw(self.level3 as *mut ExtMetadataBlockLevel3));
-            drop(Box::from_raw(self.level4 as *mut ExtMetadataBlockLevel4));
-            drop(Box::from_raw(self.level5 as *mut ExtMetadataBlockLevel5));
-            drop(Box::from_raw(self.level6 as *mut ExtMetadataBlockLevel6));
+            free_block(self.level3);
+            free_block(self.level4);
+            free_block(self.level5);
+            free_block(self.level6);
             self.level8.free();
-            drop(Box::from_raw(self.level9 as *mut ExtMetadataBlockLevel9));
+            free_block(self.level9);
             self.level10.free();
-            drop(Box::from_raw(self.level11 as *mut ExtMetadataBlockLevel11));
-            drop(Box::from_raw(
-                self.level254 as *mut ExtMetadataBlockLevel254,
-            ));
-            drop(Box::from_raw(
-                self.level255 as *mut ExtMetadataBlockLevel255,
-            ));
+            free_block(self.level11);
+            free_block(self.level254);
+            free_block(self.level255);
         }
     }
 }
